@@ -326,6 +326,8 @@ class AFS:
         return None
 
     def _parent_ok(self, r, p):
+        if any(len(c.encode("utf-8", "surrogateescape")) > 255 for c in _s(p).split("/")):
+            raise OSError(errno.ENAMETOOLONG, "File name too long", _s(p))
         if r is None or posixpath.dirname(r) not in self.dirs:
             raise FileNotFoundError(errno.ENOENT, "No such file or directory", _s(p))
 
@@ -911,7 +913,12 @@ def _strict_prefix(data):
     """A strict prefix of `data` of arbitrary length (possibly empty)."""
     segs = [s for s in data.segs]
     if len(segs) == 1 and segs[0][0] == "T":
-        return ABuf.of([("T", Partial(segs[0][1], None), 0, None)])
+        if segs[0][3] is None:
+            return ABuf.of([("T", Partial(segs[0][1], None), 0, None)])
+        E = eng()
+        w = E.int("short_write_%d" % len(E.inputs), 0, None)       # the token's length is known: so is the prefix's
+        E.assume(w < segs[0][3])
+        return ABuf.of([("T", Partial(segs[0][1], w), 0, w)]) if tb(w > 0) else ABuf.of([])
     E = eng()
     n = data.size()
     w = E.int("short_write_%d" % len(E.inputs), 0, None)
